@@ -14,6 +14,10 @@ EXTRA_SNIPPETS = [
     ("nested_parent_replaced", "    assert 5 == snapshot([snapshot(1), 2])"),
     ("nested_dict", "    assert {'a': 1, 'b': [2]} == snapshot({'a': snapshot(3), 'b': [snapshot(2)]})"),
     ("nested_missing", "    assert [1, 2] == snapshot([snapshot(), 2])"),
+    ("nested_missing_deleted", "    assert [0, 7] == snapshot([snapshot(), 0])"),
+    ("nested_missing_deleted_tuple", "    assert (1, 2, 3) == snapshot((snapshot(), 0))"),
+    ("nested_missing_two", "    assert [5] == snapshot([snapshot(), snapshot(), 5])"),
+    ("nested_missing_dict", "    assert {'a': 1} == snapshot({'b': snapshot(), 'a': 1})"),
     # comparisons that raise
     ("cmp_raises_le", "    class Bad:\n        def __deepcopy__(self, memo):\n            raise ValueError('no copy')\n    try:\n        assert Bad() <= snapshot(5)\n    except Exception:\n        pass"),
     ("cmp_raises_in", "    class Bad:\n        def __eq__(self, o):\n            return False\n        def __hash__(self):\n            return 1\n    try:\n        assert Bad() in snapshot([5])\n    except Exception:\n        pass"),
